@@ -5,6 +5,7 @@ mod c01;
 mod c06t;
 mod c07;
 mod c08;
+mod c09t;
 mod c13;
 mod exec;
 mod sched;
@@ -74,6 +75,7 @@ fn main() {
         "c07" => dispatch(&c07::C07, &args),
         "c01" => dispatch(&c01::C01, &args),
         "c06t" => dispatch(&c06t::C06T, &args),
+        "c09t" => dispatch(&c09t::C09T, &args),
         "c13" => dispatch(&c13::C13, &args),
         other => simcore::harness_error(&format!("unknown command {other:?}")),
     }
